@@ -20,6 +20,7 @@ whole file, whatever that position would have been.
 import json
 import os
 import re
+import shutil
 from datetime import datetime, timedelta
 
 import vlib
@@ -137,8 +138,22 @@ def gen_case(rng):
             glob = cons[str(shared)][:3]
     return {'content_hex': content.hex(), 'policy': None, 'defs': defs,
             'reg': [r[0] for r in reg], 'allow': [r[1] for r in reg],
+            'via': gen_via(rng, [r[1] for r in reg]),
             'cons': cons, 'global': glob, 'global_shared': shared,
             'patch': None}
+
+
+def gen_via(rng, allow):
+    """ how each registration names the file: its path, its directory or a
+    glob (restricting registrations mostly by directory / glob) """
+    out = []
+    for a in allow:
+        k = rng.random()
+        if a:
+            out.append('file' if k < 0.6 else 'dir' if k < 0.8 else 'glob')
+        else:
+            out.append('file' if k < 0.3 else 'dir' if k < 0.65 else 'glob')
+    return out
 
 
 def gen_shared_case(rng):
@@ -179,7 +194,8 @@ def gen_shared_case(rng):
         free = [i for i, d in enumerate(defs) if not d['cons']]
         allow[rng.choice(free)] = False
     return {'content_hex': content.hex(), 'policy': None, 'defs': defs,
-            'reg': list(range(len(defs))), 'allow': allow, 'cons': cons,
+            'reg': list(range(len(defs))), 'allow': allow,
+            'via': gen_via(rng, allow), 'cons': cons,
             'global': cons['1'][:3], 'global_shared': 1, 'patch': None}
 
 
@@ -346,8 +362,15 @@ def run_impl(case, path, vals):
             sds.append(SearchDef(pat, tag=d['tag'], hint=d['hint'],
                                  store_result_contents=d['store'], **kw))
     fs = FileSearcher(constraint=gc)
-    for i, allow in zip(case['reg'], case['allow']):
-        fs.add(sds[i], path, allow_global_constraints=allow)
+    # the file is alone in its directory: registering the directory or a
+    # glob denotes exactly this file
+    how = {'file': path, 'dir': os.path.dirname(path),
+           'glob': os.path.join(os.path.dirname(path), '*.log')}
+    via = case.get('via') or ['file'] * len(case['reg'])
+    for i, allow, v in zip(case['reg'], case['allow'], via):
+        fs.add(sds[i], how[v], allow_global_constraints=allow)
+    if fs.files != [path]:
+        return c01.failed('RegistrationDenotesOtherFiles'), None
     told = []
     real = S.SearchConstraintsManager.apply_global
 
@@ -412,8 +435,9 @@ def coq_case7(case, tables, pids, hids, pos, whole):
 
 
 def evaluate(chk, cases, tag='c07', nontrivial=None):
-    work = os.path.join(chk.work, 'files')
-    os.makedirs(work, exist_ok=True)
+    work = os.path.join(chk.work, f'files_{tag}')
+    shutil.rmtree(work, ignore_errors=True)
+    os.makedirs(work)
     path = os.path.join(work, f'{tag}.log')
     terms, wants, keep, uni = [], [], [], []
     seen = set()
@@ -457,10 +481,7 @@ def evaluate(chk, cases, tag='c07', nontrivial=None):
         if key not in seen and nt:
             seen.add(key)
             chk.coverage['distinct_nontrivial'] += 1
-    try:
-        os.unlink(path)
-    except OSError:
-        pass
+    shutil.rmtree(work, ignore_errors=True)
     m_model, e1 = vlib.eval_cases(chk.work, f'{tag}_model', '', PREAMBLE7,
                                   'run_model7', terms, wants, shard=40)
     uidx = [i for i, u in enumerate(uni) if u]
@@ -540,6 +561,13 @@ def classify(chk, case, tables, want, pos, restricted, uniform):
     if case['global'] and not restricted:
         chk.dist('seek-skipped-lines' if pos else 'seek-at-start')
     chk.dist('uniform' if uniform else 'heterogeneous')
+    via = case.get('via') or []
+    if case['global'] and restricted:
+        kinds = {v for v, a in zip(via, case['allow']) if not a}
+        for k in sorted(kinds):
+            chk.dist(f'restricting-registration-by-{k}')
+    if len(set(via)) > 1:
+        chk.dist('mixed-registration-kinds')
     if case.get('global_shared'):
         chk.dist('shared-constraint-object' +
                  ('+restricted' if restricted else
@@ -578,11 +606,13 @@ def classify(chk, case, tables, want, pos, restricted, uniform):
 
 def fixed_cases():
     """ hand-made shapes that must always be present """
-    def mk(lines, defs, cons, glob=None, allow=None, shared=None):
+    def mk(lines, defs, cons, glob=None, allow=None, shared=None,
+           via=None):
         return {'content_hex': ('\n'.join(lines) + '\n').encode().hex(),
                 'policy': None, 'defs': defs,
                 'reg': list(range(len(defs))),
                 'allow': allow or [True] * len(defs), 'cons': cons,
+                'via': via or ['file'] * len(defs),
                 'global': glob, 'global_shared': shared, 'patch': None}
 
     def sd(pats, cons, tag, seq=False, hint=None):
@@ -610,6 +640,18 @@ def fixed_cases():
         mk(sorted(x for x in lines if x[0] == '2' and 'T' not in x),
            [sd(any_aa, [], 't0'), sd(any_aa, [2], 's', seq=True)], c,
            glob=['2022-03-11 00:00:00', 0, 30]),
+        # restricting registration made by glob / by directory, the
+        # neighbour by file path: the file must still be searched whole
+        mk(lines, [sd(any_aa, [1], 't0'), sd(any_aa, [], 't1')], c,
+           glob=['2022-03-11 00:00:00', 0, 20], allow=[True, False],
+           via=['file', 'glob']),
+        mk(lines, [sd(any_aa, [], 't0'), sd(any_aa, [2], 't1')], c,
+           glob=['2022-03-11 00:00:00', 0, 20], allow=[False, True],
+           via=['dir', 'file']),
+        mk(sorted(x for x in lines if x[0] == '2' and 'T' not in x),
+           [sd(any_aa, [], 't0'), sd(any_aa, [], 't1')], c,
+           glob=['2022-03-11 00:00:00', 0, 20], allow=[False, True],
+           via=['glob', 'dir']),
         # constraint 1 is ALSO the file-level constraint object; the file is
         # not positioned: restricted by the neighbour ...
         mk(lines, [sd(any_aa, [1], 't0'), sd(any_aa, [], 't1')], c,
@@ -643,7 +685,7 @@ def run(chk):
         "constraint (in 30% of those the SAME constraint object is also a "
         "search's own constraint; plus a family where that is so and the "
         "file is not positioned: restricted by a neighbour, or without "
-        "readable timestamps); 10 fixed shapes.  Constraint outcomes tabulated with "
+        "readable timestamps); every registration made by file path, by directory or by glob; 13 fixed shapes.  Constraint outcomes tabulated with "
         "plain re + datetime.  Each case: real FileSearcher.run() vs Coq "
         "model; vs Coq spec when undecidedness is uniform.  Non-trivial = a "
         "constrained definition has a matching line before its activation "
